@@ -181,10 +181,10 @@ theorem start_goroutines_gone_at_kill_return (P : Params) (hW : P.killWaitsForGo
   simp only [List.mem_cons, List.not_mem_nil, or_false] at hs
   rcases hs with rfl | rfl | rfl | rfl <;> simp [goneAtKillReturn, Site.inClientWaitGroup, hW]
 
-/-- Site accounting: 29 `go` sites, 17 of which can run in the host role; the model's list is
+/-- Site accounting: 31 `go` sites, 17 of which can run in the host role; the model's list is
 sorted and duplicate free (so `goSites = knownSites` is an equality of sets with multiplicity). -/
 theorem site_accounting :
-    allSites.length = 29 ∧ (allSites.filter Site.hostRole).length = 17 ∧ knownSites = List.range' 1 29 := by decide
+    allSites.length = 31 ∧ (allSites.filter Site.hostRole).length = 17 ∧ knownSites = List.range' 1 31 := by decide
 
 /-- Every host-role site is an entry of some session of the model, except the two that are
 outside the histories considered (`CleanupClients`' helper, which only calls `Kill`, and the
